@@ -108,12 +108,15 @@ HAND = {
     "NeoHooke(mu,bulk)": lambda vk: fem.NeoHooke(mu=vk.real_scalar("mu"), bulk=vk.real_scalar("bulk", near=3.0)),
     "NeoHooke(mu,bulk,parallel)": lambda vk: fem.NeoHooke(mu=vk.real_scalar("mu"), bulk=vk.real_scalar("bulk", near=3.0), parallel=True),
     "Volumetric(bulk)": lambda vk: fem.Volumetric(bulk=vk.real_scalar("bulk", near=3.0)),
+    "Volumetric(bulk,parallel)": lambda vk: fem.Volumetric(bulk=vk.real_scalar("bulk", near=3.0), parallel=True),
     "NeoHookeCompressible(mu)": lambda vk: fem.NeoHookeCompressible(mu=vk.real_scalar("mu")),
     "NeoHookeCompressible(mu,lmbda)": lambda vk: fem.NeoHookeCompressible(mu=vk.real_scalar("mu"), lmbda=vk.real_scalar("lmbda", near=2.0)),
+    "NeoHookeCompressible(mu,lmbda,parallel)": lambda vk: fem.NeoHookeCompressible(mu=vk.real_scalar("mu"), lmbda=vk.real_scalar("lmbda", near=2.0), parallel=True),
     "LinearElasticLargeStrain(E,nu)": lambda vk: fem.LinearElasticLargeStrain(E=vk.real_scalar("E", near=2.0), nu=vk.real_scalar("nu", near=0.3, spread=0.1)),
+    "LinearElasticLargeStrain(E,nu,parallel)": lambda vk: fem.LinearElasticLargeStrain(E=vk.real_scalar("E", near=2.0), nu=vk.real_scalar("nu", near=0.3, spread=0.1), parallel=True),
     "Laplace(multiplier)": lambda vk: fem.Laplace(multiplier=vk.real_scalar("k")),
 }
-NO_OUT = {"LinearElasticLargeStrain(E,nu)", "Laplace(multiplier)"}
+NO_OUT = {"LinearElasticLargeStrain(E,nu)", "LinearElasticLargeStrain(E,nu,parallel)", "Laplace(multiplier)"}
 
 
 @contract("C03", "handcoded", configs=[dict(model=k) for k in HAND] + [dict(model=k, layout="F") for k in ("NeoHooke(mu,bulk)", "NeoHookeCompressible(mu,lmbda)")])  # layout=F: column-major deformation gradient
@@ -168,11 +171,27 @@ def linear(vk, cfg):
             A2 = None
         if A2 is not None:
             vk.ensures_eq("hessian(x=None)==hessian(x)", bc(A2, ashape), bc(A, ashape))
+            # shape=: "tuple with shape of the trailing axes" -- the elasticity tensor with exactly these trailing axes,
+            # the same (constant) entries at every batch item; edge values: no trailing axis at all, one, three axes
+            A00 = np.asarray(bc(A, ashape))[..., 0, 0]
+            for s in ((), (3,), (Q + 1, C + 1), (2, 1, 2)):
+                As = np.asarray(umat.hessian(shape=s)[0])
+                if vk.sym:
+                    tail = As.shape[4:]
+                    vk.ensures_true(f"hessian(shape={s})/as many trailing axes as shape, each of that size or one (broadcastable)", As.shape[:4] == (dim,) * 4 and len(tail) == len(s) and all(t in (1, n) for t, n in zip(tail, s)), str(As.shape), backend="exec")
+                    if tail != s:
+                        vk.note(f"observation: {cfg['model']}.hessian(shape={s}) returns trailing axes {tail} (math.identity reduces them to one, as documented there); LinearElastic / PlaneStress / Orthotropic return the full shape")
+                vk.ensures_eq(f"hessian(shape={s})==hessian(x) at every batch item", bc(As, (dim,) * 4 + s), bc(A00.reshape((dim,) * 4 + (1,) * len(s)), (dim,) * 4 + s))
+            # x and shape= together: the entries are those of hessian(x)
+            vk.ensures_eq("hessian(x, shape=(Q, C))==hessian(x)", bc(umat.hessian([F, None], shape=(Q, C))[0], ashape), bc(A, ashape))
 
 
-@contract("C03", "kinematics", configs=[dict(parallel=False), dict(parallel=True)])
+@contract("C03", "kinematics", configs=[dict(parallel=False), dict(parallel=True), dict(parallel=False, method_parallel=True), dict(parallel=True, method_parallel=False)])
 def kinematics(vk, cfg):
+    """method_parallel: the `parallel=` keyword of AreaChange.function / gradient and VolumeChange.hessian overrides
+    the flag of the instance (threaded math): the same values"""
     par = cfg["parallel"]
+    kw = {} if cfg.get("method_parallel") is None else dict(parallel=cfg["method_parallel"])
     F = F_sym(vk)
     vc, ac, lc = fem.constitution.VolumeChange(parallel=par), fem.constitution.AreaChange(parallel=par), fem.constitution.LineChange(parallel=par)
     for f in (type(vc).function, type(vc).gradient, type(vc).hessian, type(ac).function, type(ac).gradient, type(lc).gradient):
@@ -180,17 +199,17 @@ def kinematics(vk, cfg):
     F0 = vk.snapshot(F)
     J = vc.function([F])[0]
     G = vc.gradient([F])[0]
-    H = vc.hessian([F])[0]
+    H = vc.hessian([F], **kw)[0]
     vk.ensures_eq("VolumeChange/function==det", J, det_ref(F))
     vk.ensures_eq("VolumeChange/gradient==D(function)", G, dF(vk, J, F))
     vk.ensures_eq("VolumeChange/hessian==D(gradient)", H, dF(vk, G, F))
-    Fs = ac.function([F])[0]
+    Fs = ac.function([F], **kw)[0]
     vk.ensures_eq("AreaChange/function==J*inv(F).T", ref_einsum("jiqc,jkqc->ikqc", F, Fs), np.asarray(J)[None, None] * bc(ring.lift(np.eye(3).reshape(3, 3, 1, 1)) if vk.sym else np.eye(3).reshape(3, 3, 1, 1), F.shape))
-    vk.ensures_eq("AreaChange/gradient==D(function)", ac.gradient([F])[0], dF(vk, Fs, F))
+    vk.ensures_eq("AreaChange/gradient==D(function)", ac.gradient([F], **kw)[0], dF(vk, Fs, F))
     N = vk.reals("N", (3, Q, C), near=np.broadcast_to(np.array([0.0, 0.0, 1.0]).reshape(3, 1, 1), (3, Q, C)))
-    FsN = ac.function([F], N)[0]
+    FsN = ac.function([F], N, **kw)[0]
     vk.ensures_eq("AreaChange/function(N)==Fs.N", FsN, ref_einsum("ijqc,jqc->iqc", Fs, N))
-    vk.ensures_eq("AreaChange/gradient(N)==D(function(N))", ac.gradient([F], N)[0], dF(vk, FsN, F))
+    vk.ensures_eq("AreaChange/gradient(N)==D(function(N))", ac.gradient([F], N, **kw)[0], dF(vk, FsN, F))
     vk.ensures_eq("LineChange/gradient==D(F)", bc(lc.gradient([F])[0], (3, 3, 3, 3, Q, C)), dF(vk, F, F))
     vk.frame_unchanged("x[0]", F, F0)
     vk.canary("VolumeChange/hessian==0", H, 0 * H)
@@ -250,6 +269,25 @@ def mixed(vk, cfg):
     vk.ensures_eq("hessian[JJ]==D(gradient[J],J)", z(HJJ, s0_), dS(vk, bc(gJ, s0_), J))
     if not nosym:
         vk.ensures_eq("hessian[uu]-major-symmetric", z(Huu, s4), np.einsum("ijkl...->klij...", z(Huu, s4)))
+    if cfg["wrapper"] == "NearlyIncompressible":
+        # out=: "a location into which the result is stored": the (u) / (u, u) block is the buffer and holds the same
+        # values as without out=, on a fresh buffer and on the reused one (nothing is accumulated over calls)
+        for what, fn, shape, spec in (("gradient", umat.gradient, s2, gu), ("hessian", umat.hessian, s4, z(Huu, s4))):
+            spec = np.array(spec, dtype=object if vk.sym else float, copy=True)
+            buf = np.zeros(shape, dtype=object if vk.sym else float)
+            buf[...] = LP.const(7) if vk.sym else 7.0
+            for use in ("fresh", "reused"):
+                r = fn([F, p, J, None], out=buf)
+                vk.ensures_eq(f"{what}/out={use}/first block==block without out=", r[0], spec)
+                vk.ensures_eq(f"{what}/out={use}/the buffer holds the result", buf, spec)
+                if what == "gradient":
+                    vk.ensures_eq(f"{what}/out={use}/[p]", bc(r[1], s0_), bc(gp, s0_))
+                    vk.ensures_eq(f"{what}/out={use}/[J]", bc(r[2], s0_), bc(gJ, s0_))
+                else:
+                    vk.ensures_eq(f"{what}/out={use}/[up]", z(r[1], s2), z(Hup, s2))
+                    vk.ensures_eq(f"{what}/out={use}/[JJ]", z(r[5], s0_), z(HJJ, s0_))
+            for nm, a, s0 in zip("FpJ", (F, p, J), snaps):
+                vk.frame_unchanged(f"{what}/out/{nm}", a, s0)
     if vk.sym:
         vk.canary("hessian[uJ]==0", z(HuJ, s2), ring.lift(np.zeros(s2)) + (0 if cfg["wrapper"] == "ThreeFieldVariation" else 1))
 
@@ -389,7 +427,63 @@ def ogden_roxburgh(vk, cfg):
     vk.canary("hessian==eta*A-only", A, inner.hessian([F, None])[0] * 0.5) if vk.sym else None
 
 
-@contract("C03", "small_strain", configs=[dict(model="linear_elastic"), dict(model="plastic", case="elastic"), dict(model="plastic", case="plastic")])
+def small_strain_dim2(vk, cfg):
+    """MaterialStrain(material, dim=2, statevars=(1,)): a user law for the 2x2 (plane) strain tensor with one extra state
+    variable.  dim= is the dimension of the strain / stress tensors the wrapper stores behind the user's state variables:
+    the template x, the split of the stored state into (user state, old strain (dim, dim), old stress (dim, dim)), the
+    new state and the consistent tangent are those of the 2x2 law"""
+    lam, mu = vk.real_scalar("lmbda", near=2.0), vk.real_scalar("mu", near=1.0)
+    seen = {}
+
+    def user2d(dε, εn, σn, ζn, λ, μ, **kwargs):
+        "plane linear-elastic increment; the extra state variable accumulates tr(dε)"
+        seen.update(shapes=(np.shape(dε), np.shape(εn), np.shape(σn), [np.shape(z) for z in ζn]), εn=np.array(εn, copy=True), σn=np.array(σn, copy=True), ζn=np.array(ζn[0], copy=True))
+        eye = np.eye(2).reshape(2, 2, 1, 1)
+        σ = σn + 2 * μ * dε + λ * (dε[0, 0] + dε[1, 1]) * eye
+        dσdε = None
+        if kwargs["tangent"]:
+            dσdε = 2 * μ * np.einsum("ik,jl->ijkl", np.eye(2), np.eye(2)).reshape(2, 2, 2, 2, 1, 1) + λ * np.einsum("ij,kl->ijkl", np.eye(2), np.eye(2)).reshape(2, 2, 2, 2, 1, 1)
+        return dσdε, σ, [ζn[0] + (dε[0, 0] + dε[1, 1])]
+
+    umat = fem.constitution.MaterialStrain(material=user2d, dim=2, statevars=(1,), λ=lam, μ=mu)
+    for f in (type(umat).__init__, type(umat).extract, type(umat).gradient, type(umat).hessian):
+        vk.real(f)
+    q, c = Q, C
+    F = vk.reals("F", (2, 2, q, c), near=np.broadcast_to(np.eye(2).reshape(2, 2, 1, 1), (2, 2, q, c)), spread=0.02)
+    zeta = vk.reals("zeta_n", (1, q, c), near=0.1, spread=0.05)
+    eps_old = vk.reals("eps_n", (2, 2, q, c), near=0.0, spread=0.01)
+    eps_old = (eps_old + np.einsum("ij...->ji...", eps_old)) / 2
+    sig_old = vk.reals("sig_n", (2, 2, q, c), near=0.0, spread=0.01)
+    sig_old = (sig_old + np.einsum("ij...->ji...", sig_old)) / 2
+    sv = np.concatenate([zeta, eps_old.reshape(4, q, c), sig_old.reshape(4, q, c)], axis=0)
+    if vk.sym:
+        x0, x1 = np.asarray(umat.x[0]), np.asarray(umat.x[1])
+        vk.ensures_true("dim=2/template x == [identity (2, 2), zeros (user state 1 + strain 4 + stress 4)]", umat.dim == 2 and x0.shape == (2, 2) and bool(np.all(x0 == np.eye(2))) and x1.shape == (9,) and not np.any(x1), f"{x0.shape} {x1.shape}", backend="exec")
+    F0, sv0 = vk.snapshot(F), vk.snapshot(sv)
+    sv_in = sv.copy()
+    sig, sv_new = umat.gradient([F, sv_in])
+    dsde = umat.hessian([F, sv_in])[0]
+    vk.frame_unchanged("dim=2/x[0]", F, F0)
+    vk.frame_unchanged("dim=2/x[-1] (stored state) after gradient+hessian", sv_in, sv0)
+    if vk.sym:
+        vk.ensures_true("dim=2/the law is handed (2, 2) strain increment, old strain, old stress and the user state in its shape", seen["shapes"] == ((2, 2, q, c), (2, 2, q, c), (2, 2, q, c), [(1, q, c)]), str(seen["shapes"]), backend="exec")
+    vk.ensures_eq("dim=2/old strain handed to the law", seen["εn"], eps_old)
+    vk.ensures_eq("dim=2/old stress handed to the law", seen["σn"], sig_old)
+    vk.ensures_eq("dim=2/user state handed to the law", seen["ζn"], zeta)
+    eye = np.eye(2).reshape(2, 2, 1, 1)
+    strain = ((F - eye) + np.einsum("ij...->ji...", F - eye)) / 2
+    de = strain - eps_old
+    vk.ensures_eq("dim=2/stress==old stress + 2 mu de + lambda tr(de) 1", sig, sig_old + 2 * mu * de + lam * (de[0, 0] + de[1, 1]) * eye)
+    vk.ensures_eq("dim=2/hessian==D(gradient)|old-state", bc(dsde, (2, 2, 2, 2, q, c)), dF(vk, sig, F))
+    vk.ensures_eq("dim=2/statevars_new/user state", sv_new[:1], zeta + (de[0, 0] + de[1, 1]))
+    vk.ensures_eq("dim=2/statevars_new/strain", sv_new[1:5], strain.reshape(4, q, c))
+    vk.ensures_eq("dim=2/statevars_new/stress", sv_new[5:], np.asarray(sig).reshape(4, q, c))
+    if vk.sym:
+        vk.ensures_true("dim=2/statevars_new has the shape of the stored state", np.shape(sv_new) == (9, q, c), str(np.shape(sv_new)), backend="exec")
+        vk.canary("dim=2/hessian==2*D(gradient)", bc(dsde, (2, 2, 2, 2, q, c)), 2 * dF(vk, sig, F) + 1)
+
+
+@contract("C03", "small_strain", configs=[dict(model="linear_elastic"), dict(model="plastic", case="elastic"), dict(model="plastic", case="plastic"), dict(model="user-law", dim=2)])
 def small_strain(vk, cfg):
     """MaterialStrain wrapper + small-strain laws: the elasticity is the consistent tangent of the stress
     update at fixed old state (symmetrised as the wrapper does); new state variables carry the new strain
@@ -397,6 +491,8 @@ def small_strain(vk, cfg):
     from felupe.constitution.small_strain.models._linear_elastic import linear_elastic
     from felupe.constitution.small_strain.models._linear_elastic_plastic_isotropic import linear_elastic_plastic_isotropic_hardening as plastic
 
+    if cfg.get("dim") == 2:
+        return small_strain_dim2(vk, cfg)
     lam, mu = vk.real_scalar("lmbda", near=2.0), vk.real_scalar("mu", near=1.0)
     q = c = 1
     near = np.eye(3).reshape(3, 3, 1, 1)
